@@ -13,6 +13,7 @@ import (
 	"math/big"
 	"net"
 	"net/http"
+	"runtime"
 	"strings"
 	"sync"
 	"testing"
@@ -67,6 +68,25 @@ func (w *sesWorld) snapshot() [6]int {
 	return s
 }
 
+// busyGoroutines counts the goroutines of the process that are running or runnable (the caller
+// excluded): with the sampled counters this is the real-time stand-in for the bubble's barrier.
+func busyGoroutines() int {
+	buf := make([]byte, 1<<20)
+	n := runtime.Stack(buf, true)
+	busy := 0
+	for _, blk := range strings.Split(string(buf[:n]), "\n\n") {
+		i, j := strings.IndexByte(blk, '['), strings.IndexByte(blk, ']')
+		if i < 0 || j < i {
+			continue
+		}
+		st := blk[i+1 : j]
+		if strings.HasPrefix(st, "running") || strings.HasPrefix(st, "runnable") {
+			busy++
+		}
+	}
+	return busy - 1
+}
+
 func rtIdle() {
 	w := curSes
 	if w == nil {
@@ -79,7 +99,7 @@ func rtIdle() {
 	for stable < rtStable && time.Now().Before(deadline) {
 		time.Sleep(rtTick)
 		cur := w.snapshot()
-		if cur == last {
+		if cur == last && busyGoroutines() <= 0 {
 			stable++
 		} else {
 			stable, last = 0, cur
